@@ -7,8 +7,8 @@ import Iauthd.Log.Proofs
   Formally: after `load`, either the tables are `rescan st0 (final tree)` for a well-formed
   `st0`, or the tables are untouched and the final tree has the same attach operations as the
   tree before.  Rescans that happen earlier in the merge (the per-child hooks fire while later
-  children still hold their old values; F14: a file-created string fires on the first reload
-  even when nothing changed) only produce "Attaching …" chatter: the last one decides.
+  children still hold their old values; a file-created string that the new file drops fires
+  once more with its value cleared) only produce "Attaching …" chatter: the last one decides.
 
   Together with `C18_route` / `rescan_history_free` this is C18's "after a reload the routing
   is that of the new section only" for the model (see Iauthd/Properties/C18.lean).
@@ -39,7 +39,7 @@ structure PreOK (modified : Bool) (t : Child) : Prop where
 
 /-- a child of the scratch tree -/
 structure ScratchOK (s : Child) : Prop where
-  cached : s.cached = none
+  cached : s.cached = none ∨ ∃ v, s.values = [v] ∧ s.cached = some v
   reg : s.reg = false
 
 /-- the tables agree with the tree `view`: a rescan over (a tree with the same attach operations
@@ -218,11 +218,18 @@ theorem revert_spec {co : Bytes → Bool} {o : LogSt} {ol : List Child} {run : R
           exact ⟨this.types, this.dests⟩
         exact P.congr (by rw [ops_rehook]) (fire_P hw m)
     | false =>
-      simp only [hreg, Bool.false_eq_true, if_false, Prod.mk.injEq] at h
-      obtain ⟨rfl, rfl, rfl, rfl⟩ := h
-      refine ⟨?_, by simp⟩
-      simp only [Bool.or_true]
-      exact P.of_modified _ hp.wf
+      simp only [hreg, Bool.false_eq_true, if_false] at h
+      by_cases hc : (t.cached.isSome && t.hook) = true
+      · simp only [hc, if_true, Prod.mk.injEq] at h
+        obtain ⟨rfl, rfl, rfl, rfl⟩ := h
+        refine ⟨?_, by simp⟩
+        simp only [Bool.or_true]
+        exact P.of_modified _ (fire_P (o := o) (ol := ol) hp.wf m).wf
+      · simp only [hc] at h
+        obtain ⟨rfl, rfl, rfl, rfl⟩ := h
+        refine ⟨?_, by simp⟩
+        simp only [Bool.or_true]
+        exact P.of_modified _ hp.wf
   | list =>
     simp only [hk] at h
     have hreg : t.reg = false := by
@@ -322,7 +329,7 @@ theorem update_spec {co : Bytes → Bool} {o : LogSt} {ol : List Child} {run : R
 /-! ### the merge loop -/
 
 theorem PreOK_of_scratch {s : Child} (hs : ScratchOK s) : PreOK true s :=
-  ⟨fun _ _ => Or.inl hs.cached, (fun hr => by rw [hs.reg] at hr; cases hr), Or.inr rfl⟩
+  ⟨fun _ _ => hs.cached, (fun hr => by rw [hs.reg] at hr; cases hr), Or.inr rfl⟩
 
 theorem PreOK_append_scratch {m : Bool} {pre : List Child} {s : Child}
     (hpre : ∀ t ∈ pre, PreOK m t) (hs : ScratchOK s) : ∀ t ∈ pre ++ [s], PreOK true t := by
@@ -396,17 +403,25 @@ theorem walk_spec (co : Bytes → Bool) (o : LogSt) (ol : List Child)
 
 /-! ### a whole load -/
 
-theorem setValues_ok (n : Child) : ∀ cs : List Child, (∀ s ∈ cs, ScratchOK s) → ∀ s ∈ setValues n cs, ScratchOK s
+theorem scratchCache_ok (k : Kind) (vs : List Bytes) :
+    scratchCache k vs = none ∨ ∃ v, vs = [v] ∧ scratchCache k vs = some v := by
+  unfold scratchCache
+  split
+  · exact Or.inr ⟨_, rfl, rfl⟩
+  · exact Or.inl rfl
+
+theorem setValues_ok (n : Child) (hn : n.cached = none ∨ ∃ v, n.values = [v] ∧ n.cached = some v) :
+    ∀ cs : List Child, (∀ s ∈ cs, ScratchOK s) → ∀ s ∈ setValues n cs, ScratchOK s
   | [], _, s, hs => by simp [setValues] at hs
   | c :: rest, h, s, hs => by
     unfold setValues at hs
     split at hs
     · rcases List.mem_cons.mp hs with rfl | h'
-      · exact ⟨(h c (List.mem_cons_self ..)).cached, (h c (List.mem_cons_self ..)).reg⟩
+      · exact ⟨hn, (h c (List.mem_cons_self ..)).reg⟩
       · exact h s (List.mem_cons_of_mem _ h')
     · rcases List.mem_cons.mp hs with rfl | h'
       · exact h _ (List.mem_cons_self ..)
-      · exact setValues_ok n rest (fun x hx => h x (List.mem_cons_of_mem _ hx)) s h'
+      · exact setValues_ok n hn rest (fun x hx => h x (List.mem_cons_of_mem _ hx)) s h'
 
 theorem mem_insertChild {n x : Child} : ∀ {cs : List Child}, x ∈ insertChild n cs ↔ x = n ∨ x ∈ cs
   | [] => by simp [insertChild]
@@ -424,10 +439,10 @@ theorem scratchInsert_ok (cs : List Child) (e : RawEntry) (h : ∀ s ∈ cs, Scr
   unfold scratchInsert
   simp only []
   split
-  · exact setValues_ok _ cs h
+  · exact setValues_ok _ (scratchCache_ok _ _) cs h
   · intro s hs
     rcases mem_insertChild.mp hs with rfl | h'
-    · exact ⟨rfl, rfl⟩
+    · exact ⟨scratchCache_ok _ _, rfl⟩
     · exact h s h'
 
 theorem scratchOf_ok (es : List RawEntry) : ∀ s ∈ scratchOf es, ScratchOK s := by
@@ -803,8 +818,14 @@ theorem revert_alive {co : Bytes → Bool} {run : Run} {pre rest : List Child} {
           exact ⟨fire_alive (run := { run with st := { run.st with vts := true } }) hr (hview _ hk), by simpa using hk⟩
         · simp only [Prod.mk.injEq] at h; obtain ⟨rfl, rfl, _, _⟩ := h
           exact ⟨hr, by simpa using hk⟩
-    · simp only [Prod.mk.injEq] at h; obtain ⟨rfl, rfl, _, _⟩ := h
-      exact ⟨hr, by simp⟩
+    · have hk : ValOK co ({ t with values := [], cached := none } : Child) ∧
+          RegOK ({ t with values := [], cached := none } : Child) :=
+        ⟨Or.inr (Or.inr (by intro v hv'; cases hv')), ht.2⟩
+      split at h
+      · simp only [Prod.mk.injEq] at h; obtain ⟨rfl, rfl, _, _⟩ := h
+        exact ⟨fire_alive hr (hview _ hk), by simp⟩
+      · simp only [Prod.mk.injEq] at h; obtain ⟨rfl, rfl, _, _⟩ := h
+        exact ⟨hr, by simp⟩
   · -- list
     split at h
     · simp only [Prod.mk.injEq] at h; obtain ⟨rfl, rfl, _, _⟩ := h
